@@ -141,6 +141,22 @@ def work(item):
             acc.query(prover, topo, f"casadi[{tag}/c{c}]", f"level {c} entry {slot} == level 0 entry", s.t == c0.slot[slot].t, D, (), on_sat)
         if set(levels[c].slot) != set(c0.slot):
             acc.exec_violation(PID, topo, f"casadi[{tag}/c{c}]", "array", f"level {c} entries differ from level 0 entries", extra={"numeric": numeric})
+    # ---- a network whose attachments were replaced after a first step: arguments/results are those of the CURRENT elements only
+    if bits == 0 and pmode == "all":
+        bld = netcheck.history_builders()["decoy-attachments-replaced"]
+        for c in (0, 2):
+            ex["structural_facts"] += 1
+            try:
+                F, b2, P2, decl2 = runs.cas_function(topo, symtype, numeric, c, more_out, None, declare=declare, builder=bld)
+                ins2, outs2 = layout.expected(topo, b2, c, list(decl2), more_out)
+                got_i = [F.size1_in(i) * F.size2_in(i) for i in range(F.n_in())]
+                got_o = [F.size1_out(i) * F.size2_out(i) for i in range(F.n_out())]
+                if got_i != [len(z) for _, z in ins2] or got_o != [len(z) for _, z in outs2]:
+                    acc.exec_violation(PID, topo, f"casadi[{tag}/c{c}/attachments-replaced]", "array",
+                                       f"after the origins/destinations were replaced the function has argument sizes {got_i} / result sizes {got_o}; the current network has {[len(z) for _, z in ins2]} / {[len(z) for _, z in outs2]}",
+                                       extra={"numeric": numeric})
+            except Exception as e:  # noqa
+                acc.exec_violation(PID, topo, f"casadi[{tag}/c{c}/attachments-replaced]", "array", f"raised {type(e).__name__}: {str(e)[:160]}", extra={"numeric": numeric})
     # ---- distinct elements that share a name: every level must still have one argument per independent variable
     if bits == 0 and pmode == "all":
         def samename(s_):
